@@ -387,8 +387,10 @@ class SReal:
 
     def simp(self):
         n, d = normal(self.n), self.d
-        if not d.is_const():
+        if not d.is_const() and not d.is_monomial():
             d = normal(d)
+        # a monomial denominator is kept as a monomial even if a rule (c^2 -> 1 - s^2) could rewrite it: the value is
+        # the same and common-factor cancellation stays cheap
         if d.is_const():
             c = d.const_val()
             if c == 0:
@@ -514,8 +516,24 @@ class SBool:
             x = diff.const()
             return {'<': x < 0, '<=': x <= 0, '>': x > 0, '>=': x >= 0, '==': x == 0, '!=': x != 0}[op]
         cv = const_value(diff)
-        if cv is not None and abs(cv) > 1e-9:
-            return {'<': cv < 0, '<=': cv <= 0, '>': cv > 0, '>=': cv >= 0, '==': False, '!=': True}[op]
+        if cv is not None:
+            # an expression over constant atoms only (sqrt(2), pi, ...): decided numerically.  If the terms cancel to
+            # below 1e-9 of their magnitude the value is taken to be exactly zero (an exact cancellation that is not
+            # syntactic); otherwise the sign of the value decides
+            ca = CTX.const_atoms
+            mag = 0.0
+            for m_, c_ in diff.n.t.items():
+                x_ = abs(c_.numerator / c_.denominator)
+                for v_, e_ in m_:
+                    x_ *= abs(ca[v_]) ** e_
+                mag += x_
+            try:
+                mag /= abs(diff.d.eval(ca))
+            except ZeroDivisionError:
+                mag = 0.0
+            if abs(cv) > 1e-9 * mag and cv != 0:
+                return {'<': cv < 0, '<=': cv <= 0, '>': cv > 0, '>=': cv >= 0, '==': False, '!=': True}[op]
+            return {'<': False, '<=': True, '>': False, '>=': True, '==': True, '!=': False}[op]
         # sign knowledge: products of atoms with known sign
         sg = _known_sign(diff)
         if sg not in ('pos', 'neg'):
@@ -1676,8 +1694,26 @@ def cos(x):
     return sincos(x)[1]
 
 
+class SPole:
+    """tan at an exact pole (cos = 0): in floating point this is a huge finite number whose reciprocal is ~0; over the
+    reals the only meaningful use is 1/tan = cot = 0, which is what this object supports"""
+    def __rtruediv__(self, other):
+        return SReal.lift(0) * SReal.lift(other)
+
+    def __truediv__(self, other):
+        if isinstance(other, (int, float, SReal)):
+            return self
+        return NotImplemented
+
+    def __mul__(self, other):
+        raise Unsupported('arithmetic with tan at a pole')
+    __rmul__ = __add__ = __radd__ = __sub__ = __rsub__ = __mul__
+
+
 def tan(x):
     s, c = (sin(x), cos(x))
+    if isinstance(c, SReal) and c.is_const() and c.const() == 0:
+        return SPole()
     return s / c
 
 
